@@ -89,4 +89,15 @@ def correspondence(ctx):
 
 def replay(ctx, payload):
     print(json.dumps(payload, indent=1)[:3000])
+    if payload.get("kind") == "worker_pair" and "hashseeds" in payload:
+        runs = [run_worker((payload["scenario"], payload["dynamic"], payload["seed"], payload.get("episodes", 3), hs)) for hs in payload["hashseeds"]]
+        outs = [o for _, o, _ in runs]
+        if any(o is None for o in outs):
+            print("a worker failed:", [e for _, _, e in runs])
+            return 1
+        same = outs[0]["transcript"] == outs[1]["transcript"] and outs[0]["hash"] == outs[1]["hash"] and outs[0]["ip_mapping"] == outs[1]["ip_mapping"]
+        print("the two processes produced", "identical" if same else "DIFFERENT", "transcripts / hashes / address maps")
+        if not same:
+            print("VIOLATION property=C20 replay=(this file)")
+        return 0 if same else 1
     return 0
